@@ -68,6 +68,12 @@ RULE = ('corpus (BIP143 published examples) + structured stream: transactions wi
         'version_int, output value/script, add_input, add_output, shuffle_inputs, merge_transaction), set_locktime_* on and '
         'around their boundaries, sign_and_update / sign(replace_signatures); observation policies every-step / end-only / '
         'after-signing / first-and-last. '
+        'input CONSTRUCTION forms (session modes fn / fh / fl / fa / fla / fu / fr): single-key inputs of every kind described '
+        'without keys - kind only, public hash, locking script, address, address + locking script -, multisig inputs from the '
+        'redeem script alone (Input(redeemscript=)) and from the unsigned unlocking script; the keys arrive with '
+        'Transaction.sign(keys) as Key, hex, bytes, WIF or HDKey; then every preimage for every hash type against consensus and '
+        'the signatures embedded in raw() against the independent verifier, again after a change + re-sign (nested P2WPKH '
+        'from a locking script only while the proposed class nested_p2wpkh_from_locking_script is recorded). '
         'non-trivial = the implementation returned a preimage / a signed transaction / a session; distinct by request')
 IMPL_TIMEOUT = 3000
 
@@ -706,6 +712,34 @@ def gen_sessions(rng, big):
         if rng.random() < 0.4:
             core.append('sau')
         cs_.append(sess_case('parse_modify', 'parse', tx, observe(rng, core, pol(), False)))
+    # ---- G. input CONSTRUCTION forms: inputs described without their keys (kind only / public hash / locking script /
+    #         address / both), the keys arrive with sign(keys) as Key, hex, bytes, WIF or HDKey; every input kind; then every
+    #         preimage against consensus and the signatures embedded in raw() against the independent verifier
+    nested_lock = _recorded('nested_p2wpkh_from_locking_script')
+    for mode in FORM_MODES:
+        for kind in SESS_KINDS:
+            for sk in ('signk',) + SIGNK_FORMS:
+                if not (big or sk == 'signk' or rng.random() < 0.5):
+                    continue
+                if kind == 'p2sh_p2wpkh' and mode in ('fl', 'fla') and not nested_lock:
+                    continue
+                for shape in ((kind,), (kind, rng.choice(SESS_KINDS), kind)):
+                    if kind == 'p2sh_p2wpkh' and mode in ('fl', 'fla'):
+                        shape = (kind,) * len(shape)      # the recorded class hides nothing else
+                    elif mode in ('fl', 'fla'):
+                        shape = tuple(k_ if k_ != 'p2sh_p2wpkh' else 'p2wpkh' for k_ in shape)
+                    tx = gen_tx(rng, list(shape), n_out=rng.choice([1, 2]), sw=True, net=('bitcoin' if sk == 'signkw' else rng.choice(['bitcoin', 'testnet', 'litecoin'])))
+                    for x in tx['ins']:
+                        if len(x['keys']) > 3:
+                            x['keys'], x['m'] = x['keys'][:3], min(x['m'], 3)
+                        x['value'] = rng.choice([546, 100000000, 0x100000001]) if rng.random() < 0.5 else rng.randrange(1, 1 << 50)
+                    tx['ver'] = rng.choice([0, 1, 2])
+                    if tx['ver'] == 1 and any(0 < x['seq'] < 0x80000000 for x in tx['ins']):
+                        tx['ver'] = 2
+                    ops = [sk, 'dig', 'vfy']
+                    if rng.random() < 0.4:
+                        ops += [rng.choice(['oval~0~%d' % rng.randrange(1, 1 << 40), 'lt~%d' % rng.choice(LOCKS)]), 'rsignk', 'dig', 'vfy']
+                    cs_.append(sess_case('form_' + mode, mode, tx, ops))
     # ---- F. random walks over everything
     for _ in range(1500 if big else 80):
         mode = rng.choice(['apik', 'apib', 'ctor', 'apikr', 'api', 'parse'])
@@ -1025,7 +1059,11 @@ def verify_signed(tx, raw, digest_of):
 # outputs are read from the bytes Transaction.raw() returned at that moment (own parser read_raw); only the description
 # of the outputs being spent (kind, keys, m, amount) — which no serialisation carries — follows the request.
 PRIV_MODES = ('apik', 'apib', 'apikr', 'ctor')
-SIGNING_OPS = ('sign', 'rsign', 'signk', 'rsignk', 'sau', 'saui', 'slrb', 'slrt', 'slb', 'slt', 'merge')
+SIGNING_OPS = ('sign', 'rsign', 'signk', 'rsignk', 'sau', 'saui', 'slrb', 'slrt', 'slb', 'slt', 'merge',
+               'signkh', 'signkb', 'signkw', 'signkd')
+SIGNK_FORMS = ('signkh', 'signkb', 'signkw', 'signkd')
+# inputs described without their keys: nothing but the kind / public hash / locking script / address / both
+FORM_MODES = ('fn', 'fh', 'fl', 'fa', 'fla', 'fu', 'fr')
 
 
 def in_of_tok(s):
@@ -1069,6 +1107,8 @@ def session_walk(c, out):
         nsig[x['uid']] = 1 if mode == 'parse' else 0
     for op, a in zip(ops, ans):
         k = op.split('~')
+        if k[0] in SIGNK_FORMS:
+            k[0] = 'signk'          # the same call, the keys spelled as hex / bytes / WIF / HDKey
         ok = a == 'ok'
         before = list(zip([x['uid'] for x in info], sig))
         if k[0] in ('sign', 'signk') and (priv or k[0] == 'signk'):
@@ -1306,6 +1346,10 @@ def prop_check(c, out):
 def same(c, io, mo):
     t = c.req.split(' ')
     if t[0] == 'sess':
+        if t[1] in ('fl', 'fla') and _nested_from_lock(c, io, mo):
+            # recorded class nested_p2wpkh_from_locking_script: the construction form is not a parameter of the model (it
+            # answers with the digests of the keyed input); generated only while the class is recorded
+            return True
         return session_same(c, io, mo)
     if t[0] == 'signed':
         if io.startswith('ERR'):
@@ -1368,7 +1412,19 @@ def _p2pk_resign(c, io, mo):
     return session_check(c, io, exempt_p2pk_resigned=True) is None
 
 
+def _nested_from_lock(c, io, mo):
+    """a P2SH-P2WPKH input created from the locking script of the output it spends (a914 <script hash> 87), no keys:
+    Input.__init__ takes the SCRIPT hash found in the locking script for the public-key hash; script code and redeem
+    script are built from it and stay so after the key arrives with sign().  Decided from the case: construction mode
+    fl / fla and every input of the transaction is of that kind"""
+    t = c.req.split(' ')
+    if t[0] != 'sess' or t[1] not in ('fl', 'fla') or not _recorded('nested_p2wpkh_from_locking_script'):
+        return False
+    return all(x['kind'] == 'p2sh_p2wpkh' for x in tx_of_tok(t[2])['ins'])
+
+
 KNOWN_CLASSES = {
+    'nested_p2wpkh_from_locking_script': _nested_from_lock,
     # index_n != list position was repaired (fixes/C01-2): no class for it, the permuted-index stream must pass
     'legacy_non_all_hashtype': lambda c, io, mo: _legacy_non_all(c),
     # repaired by fixes/C01-3 (proposed); the predicate is live only while the finding is recorded as known instead
